@@ -39,7 +39,7 @@ fn targeted(rng: &mut Rng, b: &mut Vec<u8>) -> &'static str {
     }
     let streams: Vec<usize> = (1..n_ent).filter(|i| b.get(ent_off(*i) + 66) == Some(&2)).collect();
     let fat_off = |id: usize| l.fat_sectors.get(id / (s / 4)).map(|fs| (fs + 1) * s + 4 * (id % (s / 4)));
-    match rng.below(10) {
+    match rng.below(11) {
         0 => {
             // the mini stream's length
             let cur = rd32(b, ent_off(0) + 120);
@@ -80,6 +80,21 @@ fn targeted(rng: &mut Rng, b: &mut Vec<u8>) -> &'static str {
                 wr32(b, (ms + 1) * s + 4 * k, v);
             }
             "minifat-cell"
+        }
+        9 => {
+            // a character that names may not contain, as the last unit of some entry's name (length
+            // and, mostly, the order among its siblings stay as they are)
+            let i = 1 + rng.below((n_ent - 1).max(1) as u64) as usize;
+            let off = ent_off(i);
+            let units = (rd32(b, off + 64) & 0xffff) as usize / 2;
+            if i < n_ent && units >= 2 && units <= 32 {
+                let c = *rng.pick(&[0x2fu16, 0x5c, 0x3a, 0x21]);
+                let at = off + 2 * (units - 2);
+                if at + 2 <= b.len() {
+                    b[at..at + 2].copy_from_slice(&c.to_le_bytes());
+                }
+            }
+            "name-illegal-unit"
         }
         _ => {
             // header: MiniFAT start / count
